@@ -738,13 +738,14 @@ class P(Prop):
         (M, "TV.C02.aggregate_arg_start", "T9': when no value is strictly below +inf (above -inf) Argmin (Argmax) returns 0 whatever observation 0 holds (the residual finding argextremum-equal-to-start-value)"),
         (M, "TV.C02.finite_differences", "T10: D, I, D2 as coded are the documented recurrences y(0)=NaN, y(t)=x(t)-x(t-1); y(0)=0, y(t)=y(t-1)+x(t); y(t)=x(t+1)-2x(t)+x(t-1) with NaN at both ends; one value per observation (no law of arithmetic used)"),
         (M, "TV.C02.operate_source_prime", "T11: from the source string, the ' shorthand: operate on 'lhs=e' / 'e' whose names may end with a quote does what it does on the postfix tokens of the tree with every a' replaced by D{a}/D{t} (__double_prime: two passes)"),
+        (M, "TV.C02.operate_source_sign_pair", "T12: a sign directly after a binary + or - ('a+-b', 'a--b', 'a++b', 'a-+b'): typing two signs in place of the binary sign they multiply to does not change what operate does (one pair per application)"),
         (M, "TV.C02.operate_source_prime_value", "T11': operate(src e) with the ' shorthand returns the tree semantics of the unprimed tree at every observation and leaves the track exactly as it was"),
     ]
     partial = []
     open_statements = [
         "floating point: the laws of T5 (x*(1/s)=x/s, (1/x)*s=s/x) hold in exact arithmetic (shown for rationals with NaN) but only up to rounding for IEEE doubles - and not at all when the reciprocal overflows (subnormal divisor, class scalar-division-reciprocal-overflow); agreement of the computed doubles with ordinary arithmetic is decided by the transfer check against the independent Python oracle (IEEE evaluation of the documented definitions with a running error bound, relative tolerance 1e-9 at every magnitude)",
         "the definitions of the functions (I D D2 ABS SQRT LOG DIODE SIGN EXP COS SIN TAN, SUM AVG VAR STD MSE RMSE MAD MIN MAX MEDIAN ARGMIN ARGMAX) are taken as coded in both denoteM and denote; their agreement with the documented formulas is checked by the Python oracle in the transfer check, not proved - except MIN / MAX (T8: the minimum / maximum of the non-NaN values at every magnitude), ARGMIN / ARGMAX (T9: the first index holding that extremum whenever it is strictly inside +-inf; T9': index 0 otherwise) and D, I, D2 (T10: the documented recurrences, index by index)",
-        "source strings (T7): several bare unary minuses in one string, a sign directly after + or - ('a+-b', 'a--b') and names ending with '.' are outside the proved grammar (covered by the correspondence streams expr/str; the ' shorthand is proved since T11, for names that do not start with a quote); error propagation (T6) excludes unbound names, unknown function names and a function applied to a bare number token, where the machine raises another error than the tree semantics (counter-examples in Lemmas/ExprErr.lean)",
+        "source strings (T7): several bare unary minuses or several doubled signs in one string (T12 and the bare-minus theorem are stated for one rewriting per application; they do not compose, the intermediate string not being a printed tree) and names ending with '.' are outside the proved grammar (covered by the correspondence streams expr/str; the ' shorthand is proved since T11, for names that do not start with a quote; a sign directly after a binary + or - since T12); error propagation (T6) excludes unbound names, unknown function names and a function applied to a bare number token, where the machine raises another error than the tree semantics (counter-examples in Lemmas/ExprErr.lean)",
     ]
     modelled = ("Track.__evaluate (replace chain, __specialOpChar, __convertReflexOperator, __unaryOp, f( -> f@( loops, #output prefix), "
                 "utils.makeRPN at character level, Track.__prime/__double_prime, Track.__evaluateRPN, Track.__applyOperation, the purge of "
